@@ -23,15 +23,15 @@ Proof. exact full_records_decoded. Qed.
    succeeded under one reservation and neither timestamp advanced between the two info answers; otherwise the
    partial result is discarded (None = the round is retried) *)
 Theorem C14_snapshot : forall info0 info1 reserve get fuel m,
-  retrieve_round2 info0 info1 reserve get fuel = Some m ->
+  retrieve_round info0 info1 reserve get fuel = Some m ->
   exists add0 erase0 add1 erase1 rid,
     info0 = Some (add0, erase0) /\ info1 = Some (add1, erase1) /\ add1 <= add0 /\ erase1 <= erase0 /\
     reserve tt = Some rid /\ walk get rid 0 fuel [] = WOk m.
-Proof. exact retrieve_round2_some. Qed.
+Proof. exact retrieve_round_some. Qed.
 Theorem C14_modified_is_discarded : forall add0 erase0 add1 erase1 reserve get fuel,
   add0 < add1 \/ erase0 < erase1 ->
-  retrieve_round2 (Some (add0, erase0)) (Some (add1, erase1)) reserve get fuel = None.
-Proof. exact retrieve_round2_stale. Qed.
+  retrieve_round (Some (add0, erase0)) (Some (add1, erase1)) reserve get fuel = None.
+Proof. exact retrieve_round_stale. Qed.
 
 (* the faithful model refutes the statement without [walkable]: a later record with ID 0000h sends the walk
    back to the first record for ever (in the Go code: until the caller's context expires) *)
